@@ -439,9 +439,9 @@ func realVerdict(src string) (verdict string, msg string) {
 }
 
 func runEffects(r *hlib.Run, sb *hlib.StdBuild) {
-	n := 3000
+	n := 1000
 	if r.Thorough {
-		n = 40000
+		n = 12000
 	}
 	var suspicious []struct{ src, toks string }
 	seenS := map[string]bool{}
@@ -449,9 +449,10 @@ func runEffects(r *hlib.Run, sb *hlib.StdBuild) {
 	for _, ms := range effCorners() {
 		runOneEff(r, ms, &suspicious, seenS)
 	}
+	// sequential on purpose: lang/check keeps package-level AST nodes that it
+	// annotates while checking, so concurrent Check calls would race.
 	for i := 0; i < n; i++ {
-		ms := genEffProg(r.Rand)
-		runOneEff(r, ms, &suspicious, seenS)
+		runOneEff(r, genEffProg(r.Rand), &suspicious, seenS)
 	}
 	r.Extra("effects_suspicious_accepted", len(suspicious))
 	// C run of accepted programs in which a pure method contains a write construct
@@ -469,9 +470,13 @@ func runEffects(r *hlib.Run, sb *hlib.StdBuild) {
 }
 
 func runOneEff(r *hlib.Run, ms []eMethod, suspicious *[]struct{ src, toks string }, seen map[string]bool) {
+	v, msg := realVerdict(effWuffs(ms))
+	emitEff(r, ms, v, msg, suspicious, seen)
+}
+
+func emitEff(r *hlib.Run, ms []eMethod, v, msg string, suspicious *[]struct{ src, toks string }, seen map[string]bool) {
 	src := effWuffs(ms)
 	toks := effTokens(ms)
-	v, msg := realVerdict(src)
 	r.Op("tcheck "+toks, v)
 	r.Count("tcheck:" + v)
 	r.Nontrivial(toks)
